@@ -126,7 +126,27 @@ PadsOdd(fmt) == Major(fmt) \in {M_WAV, M_WAVEX, M_RF64, M_AIFF, M_SVX, M_VOC}
 \* containers whose sample-rate field represents every integer rate in [1, 2^31-1] exactly (C04)
 ExactRate(fmt) == Major(fmt) \in {M_WAV, M_WAVEX, M_RF64, M_W64, M_AIFF, M_AU, M_CAF, M_NIST, M_PAF, M_PVF, M_MAT4, M_MAT5, M_AVR}
 
-\* containers that record the byte order of the data, so that re-opening reports it (C04)
+\* ---- byte order (C01 / C04) ----
+\* Effective byte order of multi-byte samples: 1 little, 2 big.  SF_ENDIAN_FILE (0) is the container's default, SF_ENDIAN_CPU (3)
+\* is little on the hosts this runs on.  PVF is always big and XI always little whatever is asked; NIST, IRCAM, MAT4 and MAT5
+\* default to the host's order.  The format word a reader reports may spell the same order differently (WAV little is reported
+\* as FILE, AIFF big asked explicitly comes back as BIG through the AIFC 'twos' tag): only the effective order is compared.
+DefaultOrder(m) == IF m \in {M_AIFF, M_AU, M_PAF, M_SVX, M_HTK, M_SDS, M_AVR, M_SD2, M_CAF, M_PVF} THEN 2 ELSE 1
+EffOrder(fmt) == LET e == Endian(fmt) m == Major(fmt) IN
+                 IF m = M_PVF THEN 2 ELSE IF m = M_XI THEN 1
+                 ELSE IF e = 0 THEN DefaultOrder(m) ELSE IF e = 3 THEN 1 ELSE e
+MultiByte(sub) == sub \in {S_PCM_16, S_PCM_24, S_PCM_32, S_FLOAT, S_DOUBLE}
+
+\* a dyadic whose mantissa needs more than 30 bits is logged as <<hi, lo, e>> = (hi * 2^30 + lo) * 2^e
+DySplit(d) == IF Abs(d[1]) > 1073741823
+              THEN LET sg == IF d[1] < 0 THEN -1 ELSE 1 IN <<sg * (Abs(d[1]) \div 1073741824), sg * (Abs(d[1]) % 1073741824), d[2]>>
+              ELSE d
+
+\* width of the integer every decoder of an integer-coded encoding produces (0: float encodings)
+DecWidth(sub) == IF IntWidth(sub) > 0 THEN IntWidth(sub)
+                 ELSE IF sub \in {S_ULAW, S_ALAW, S_IMA, S_MS, S_GSM, S_VOX, S_NMS16, S_NMS24, S_NMS32,
+                                  S_G721_32, S_G723_24, S_G723_40, S_DPCM8} THEN 16 ELSE 0
+
 \* (frames are logged clamped to 2^31-1 with frbig = 1 for larger counts -- a pipe of unknown length reports SF_COUNT_MAX -- and frneg = 1 for negative ones)
 Sane(info) == /\ info.ch >= 1 /\ info.ch <= 1024 /\ info.rate >= 1 /\ info.fr >= 0 /\ info.frneg = 0
               /\ info.sec >= 1 /\ Major(info.fmt) \in KnownMajors /\ Sub(info.fmt) \in KnownSubs
